@@ -1345,6 +1345,9 @@ class Machine:
             r = fr.post(self, cfg, v)
             if isinstance(r, (Outcome, list)):
                 return r
+            if isinstance(r, CallThen):
+                # the continuation asks for another call (interpreted loops of iterator adaptors): same destination
+                return self.call_value(cfg, cfg.stack[-1], r.fn, r.args, fr.dest, fr.ret_bb, None, post=r.post)
             v = r
         caller = cfg.stack[-1]
         if fr.dest is not None:
@@ -1629,6 +1632,10 @@ class Machine:
             val = post(self, cfg, val)
         return self.finish_call(cfg, dest, ret_bb, val)
 
+    def extra_handler(self, names):
+        """hook: further primitive tables of subclasses (pattern-matched callees)"""
+        return None
+
     def call_fn_post(self, cfg, fr, f, args, dest, ret_bb, t, post):
         # Evaluate callee (primitive or inlined) and apply `post` to its result.
         if f.get('ctor'):
@@ -1646,6 +1653,8 @@ class Machine:
                 if n and n in self.prims:
                     handler = self.prims[n]
                     break
+        if handler is None:
+            handler = self.extra_handler(names)
         if handler is not None:
             r = handler(self, cfg, f, args, t)
             if r is not NotImplemented:
@@ -1660,6 +1669,12 @@ class Machine:
                         if mut is not None:
                             mut(c2.st)
                         v2 = post(self, c2, val)
+                        if isinstance(v2, CallThen):
+                            o = self.call_value(c2, c2.stack[-1], v2.fn, v2.args, dest, ret_bb, t, post=v2.post)
+                            if isinstance(o, list):
+                                raise Abort('nested fork inside a chained call')
+                            outs.append(c2 if o is None else o)
+                            continue
                         o = self.finish_call(c2, dest, ret_bb, v2)
                         outs.append(c2 if o is None else o)
                     if any(isinstance(o, Outcome) for o in outs):
@@ -1675,7 +1690,12 @@ class Machine:
                     return self.call_value(cfg, fr, r.fn, r.args, dest, ret_bb, t, post=chained)
                 if isinstance(r, Outcome):
                     return r
-                return self.finish_call(cfg, dest, ret_bb, post(self, cfg, r))
+                r2 = post(self, cfg, r)
+                if isinstance(r2, CallThen):
+                    return self.call_value(cfg, fr, r2.fn, r2.args, dest, ret_bb, t, post=r2.post)
+                if isinstance(r2, (Outcome, list)):
+                    return r2
+                return self.finish_call(cfg, dest, ret_bb, r2)
         key = f.get('rkey')
         inst = self.prog.get(key) if key else None
         if inst is not None and f.get('rkind', 'item') == 'item':
